@@ -44,6 +44,17 @@ CLAIMED = {
         note="Partial: only the Write-result clauses are theorems; framing/decoding is differential + oracle. Known finding D9 (HTTP/1.0 Flush before last Write). "
              "ReadFrom/Sendfile path not covered. Trusted: Coq kernel, extraction, OCaml driver, Go harness, net/http's client parser.",
         design="4/C09, Appendix C, O"),
+    "C18": dict(
+        technique="Coq proof (invariant over all histories of a transition system for Stop + wait group + Async queue; bounded-progress termination; refutation witness) + verified log checker run on real engines + watchdog/leak oracle",
+        text="coq/stop: Engine.Stop, the open-connection wait group and the Async queue as a transition system over connection ids. Theorems for every history: the wait group equals "
+             "(1 until Stop's Done) + connections whose close callback has not completed; when Stop's wait returns every connection has been notified; without an accept after the snapshot "
+             "a fair Async drainer brings the wait group to zero within `measure` jobs (Stop returns); with such a late accept it can hang (refutation witness = finding D11). "
+             "Tie to the code: an executable checker of observed event logs (open / close notification / Stop called / Stop returned), proved to accept every projection of a model run, is extracted "
+             "and run on the logs of real engines in every history; the implementation-side oracle checks that Stop/Shutdown return under a watchdog, #OnClose = #OnOpen(+dial), every peer connection "
+             "is closed, goroutines and descriptors return to their pre-Start level, for the core engine and nbhttp (3 epoll modes x IOMods x Stop/Shutdown, incl. an injected Accept error).",
+        note="Partial: termination is proved relative to a fair Async drainer and the absence of a late accept (D11, not reproduced on the real engine: the core listener cannot be scripted); goroutine/fd release and the "
+             "nbhttp hooks are observed, not proved. Trusted: Coq kernel, extraction, harness.",
+        design="4/C18"),
     "C20": dict(
         technique="Coq proof (invariant by induction over op sequences, all oracle answers) + differential run of the extracted model",
         text="Theorems in coq/mempool/C20.v about the executable model of mempool.MemPool: length, content preservation, "
